@@ -44,6 +44,46 @@ theorem C06_header_compressed_as_written (c u : BitVec 32) (sc : Bool) (hc : c.t
   simp only [BitVec.ofNat_toNat, BitVec.setWidth_eq]
   rfl
 
+/-- **C06, header words as written, without a compressor.** What `decodeSegmentHeader` (after its CRC check) makes of the word
+    `encodeHeaderUncompressed` builds is exactly the header that was encoded: same length, same flag, compressed length 0 -/
+theorem C06_header_word_roundtrip_uncompressed_as_written (l crc : BitVec 32) (sc : Bool) (h : l.toNat ≤ 131071) :
+    Gen.GoFn.decodeSegmentHeaderFields crc (Gen.GoFn.encodeHeaderUncompressed l sc).1 true = (sc, l, 0#32, crc, false) := by
+  rw [decodeFields_nil]
+  have hw := encodeHeaderUncompressed_word l sc (by omega)
+  have facts := Props.C06.C06_header_bits_uncompressed sc l.toNat (by omega)
+  have hl : BitVec.setWidth 32 ((Gen.GoFn.encodeHeaderUncompressed l sc).1 &&& 131071#64) = l := by
+    apply BitVec.eq_of_toNat_eq; rw [toNat_low17, hw, facts.2.1]
+  rw [hl, hw]
+  have hsc : decide ((l.toNat ||| (if sc then 1 <<< 17 else 0)) >>> 17 &&& 1 = 1) = sc := by
+    cases sc
+    · exact decide_eq_false (fun hh => by have := facts.2.2.mp hh; cases this)
+    · exact decide_eq_true (facts.2.2.mpr rfl)
+  rw [hsc]
+
+/-- **C06, header words as written, with a compressor.** The word `encodeHeaderCompressed` builds decodes to the two lengths and the
+    flag; when the uncompressed-length field is 0 ("not compressed") the decoder reports the other field as the payload length -/
+theorem C06_header_word_roundtrip_compressed_as_written (c u crc : BitVec 32) (sc : Bool) (hc : c.toNat ≤ 131071)
+    (hu : u.toNat ≤ 131071) :
+    Gen.GoFn.decodeSegmentHeaderFields crc (Gen.GoFn.encodeHeaderCompressed c u sc).1 false =
+      if u = 0#32 then (sc, c, 0#32, crc, false) else (sc, u, c, crc, false) := by
+  rw [decodeFields_some]
+  have hw := encodeHeaderCompressed_word c u sc (by omega) (by omega)
+  have facts := Props.C06.C06_header_bits_compressed sc c.toNat u.toNat (by omega) (by omega)
+  have hcl : BitVec.setWidth 32 ((Gen.GoFn.encodeHeaderCompressed c u sc).1 &&& 131071#64) = c := by
+    apply BitVec.eq_of_toNat_eq; rw [toNat_low17, hw, facts.2.1]
+  have hul : BitVec.setWidth 32 (((Gen.GoFn.encodeHeaderCompressed c u sc).1 >>> (17 : Nat)) &&& 131071#64) = u := by
+    apply BitVec.eq_of_toNat_eq; rw [toNat_low17, BitVec.toNat_ushiftRight, hw, facts.2.2.1]
+  rw [hcl, hul, hw, facts.2.2.1]
+  have hsc : decide ((c.toNat ||| (u.toNat <<< 17) ||| (if sc then 1 <<< 34 else 0)) >>> 34 &&& 1 = 1) = sc := by
+    cases sc
+    · exact decide_eq_false (fun hh => by have := facts.2.2.2.mp hh; cases this)
+    · exact decide_eq_true (facts.2.2.2.mpr rfl)
+  rw [hsc]
+  by_cases hz : u = 0#32
+  · subst hz; simp
+  · have : u.toNat ≠ 0 := fun e => hz (BitVec.eq_of_toNat_eq (by simpa using e))
+    rw [if_neg this, if_neg hz]
+
 /-- the header encoders as written read exactly the length fields and the self-contained flag of the header they are given -/
 theorem C06_header_encoders_read :
     Gen.GoFn.encodeHeaderUncompressed_reads = ["header_UncompressedPayloadLength", "header_IsSelfContained"] ∧
@@ -51,6 +91,8 @@ theorem C06_header_encoders_read :
       ["header_CompressedPayloadLength", "header_UncompressedPayloadLength", "header_IsSelfContained"] := ⟨rfl, rfl⟩
 
 /-- non-vacuity: the regenerated code evaluated on concrete values -/
+example : Gen.GoFn.decodeSegmentHeaderFields 7#32 (Gen.GoFn.encodeHeaderCompressed 10#32 20#32 true).1 false = (true, 20#32, 10#32, 7#32, false) := by decide
+example : Gen.GoFn.decodeSegmentHeaderFields 7#32 (Gen.GoFn.encodeHeaderCompressed 10#32 0#32 false).1 false = (false, 10#32, 0#32, 7#32, false) := by decide
 example : (Gen.GoFn.encodeHeaderUncompressed 3#32 true).1 = 131075#64 := by decide
 example : Gen.GoFn.ChecksumKoopman 131075#64 3#64 = crc24 131075#64 3 := by decide +kernel
 
